@@ -163,9 +163,11 @@ REGISTRY = {
     "C08": {"jobs": SEND_CORE + SERVER_API + CLIENT_API + INCOMING + RECEIVE[:4], "native": "native_session.py"},
     "C09": {"jobs": [j(f"{S}:LDAPClient._send"), inh("_send", "LDAPClient")] + CLIENT_API + [INCOMING[0]], "native": "native_session.py"},
     "C10": {"jobs": SEND_CORE + SERVER_API + CLIENT_API + ENCODE_TREE, "native": "native_session.py", "assumptions": _ENC_ASSUME},
-    "C11": {"jobs": [], "native": "native_joint.py", "level": "other", "joint": True,
+    "C11": {"jobs": RECEIVE[:4], "native": "native_joint.py", "level": "other", "joint": True,
             "explanation": "Contract-level joint invariant over (client, server, two FIFO queues) discharged per action with z3, the session part of every action being derived from the proved L3 method contracts "
-                           "(obligation: contract => action); alive fragment (no terminations). Byte-level delivery reduces to message-level delivery by C02 / C01 (used as lemmas). "
+                           "(obligation: contract => action). The two designed terminations are terminal steps: client unbind / server notice of disconnection are accepted from every alive state and close their side; the delivery of the termination message cannot return "
+                           "normally (receive never returns a termination message: a proved postcondition), so it raises, and every raise of receive leaves the receiver CLOSED with nothing in progress. Between a termination being sent and being delivered the other side "
+                           "continues from the same J-state (J over the frozen fields of the closed side; paper step). Byte-level delivery reduces to message-level delivery by C02 / C01 (used as lemmas; C01 is bounded, hence level 'other'). "
                            "Bounded: all joint histories up to a stated depth with partial deliveries, including terminations."},
     "C12": {"jobs": DRAIN + SEND_CORE + SERVER_API + CLIENT_API + ENCODE_TREE, "native": "native_session.py", "assumptions": _ENC_ASSUME},
 }
